@@ -6,7 +6,7 @@ use idlc_mir::{Interface, InterfaceNode};
 pub mod functions;
 pub mod variable_names;
 
-use crate::types::change_const_primitive;
+use crate::types::const_expression;
 
 pub fn emit_interface_impl(interface: &Interface, is_no_typed_objects: bool) -> String {
     let ident = interface.ident.to_string();
@@ -21,11 +21,10 @@ pub fn emit_interface_impl(interface: &Interface, is_no_typed_objects: bool) -> 
         iface.nodes.iter().for_each(|node| match node {
             InterfaceNode::Const(c) => {
                 constants.push_str(&format!(
-                    "#define {}_{} {}({})\n",
+                    "#define {}_{} {}\n",
                     ident,
                     c.ident,
-                    change_const_primitive(c.r#type),
-                    c.value
+                    const_expression(c.r#type, &c.value)
                 ));
             }
             InterfaceNode::Error(e) => {
@@ -59,11 +58,10 @@ pub fn emit_interface_impl(interface: &Interface, is_no_typed_objects: bool) -> 
         match node {
             InterfaceNode::Const(c) => {
                 constants.push_str(&format!(
-                    "#define {}_{} {}({})\n",
+                    "#define {}_{} {}\n",
                     ident,
                     c.ident,
-                    change_const_primitive(c.r#type),
-                    c.value
+                    const_expression(c.r#type, &c.value)
                 ));
             }
             InterfaceNode::Error(e) => {
